@@ -44,8 +44,14 @@ func (f *And) Call(s *slip.Scope, args slip.List, depth int) (result slip.Object
 	result = slip.True
 	d2 := depth + 1
 	for i := range args {
-		if result = slip.EvalArg(s, args, i, d2); result == nil {
-			break
+		result = slip.EvalArg(s, args, i, d2)
+		if i < len(args)-1 {
+			// Only the last form passes on all its values, the others are
+			// judged by their first value.
+			if firstValue(result) == nil {
+				result = nil
+				break
+			}
 		}
 	}
 	return
